@@ -60,6 +60,7 @@ def run(tier, seed, only, jobs):
     _wrap(U, "C05.GetSelectedOutputValue2.type_and_value_of_the_cell", CV.unit_get_value2)
     _wrap(U, "C05.IPhreeqc_EndRow.every_user_punch_heading_gets_a_cell", CV.unit_iphreeqc_endrow)
     _wrap(U, "C05.punch_all.cells_follow_heading_order", CV.unit_punch_order)
+    _wrap(U, "C05.rows.end_of_row_signalled_wherever_a_row_is_written", CV.unit_row_end_signalled)
     if only:
         U = [x for x in U if only in x[0]]
     res = core.run_units(U, jobs=jobs)
